@@ -1070,5 +1070,5 @@ def _r09_7(ctx: Ctx, rep: Report) -> None:
 
 
 # what the later rounds (seeding rounds 2-5, refactor twins, defect hunt) added to what the check decides
-LATER_ROUNDS = "platform and version travel together into every object the generator functions build, every rendered protocol and port name is in the reader's grammar, the token tables are the words they stand for"
+LATER_ROUNDS = "platform and version travel together into every object the generator functions build, every rendered protocol and port name is in the reader's grammar, the token tables are the words they stand for, parameter records that carry the platform carry the version, a version table belongs to one platform"
 EXPLANATION = EXPLANATION.replace(" Does not decide", " Later rounds added: " + LATER_ROUNDS + ". Does not decide", 1) if " Does not decide" in EXPLANATION else EXPLANATION + " Later rounds added: " + LATER_ROUNDS + "."
